@@ -120,10 +120,10 @@ theorem C02_int_unser_iff (x : Ext) (fuel : Nat) (env : Env) (min max : Option I
     obtain ⟨n, h1, h2⟩ := bind_eq_ok h
     obtain ⟨_, h3, h4⟩ := bind_eq_ok h2
     simp at h4
-    exact ⟨n, (intInputMapper_ok_iff _ _ _).mp h1, (checkInt_ok_iff _ _ _).mp h3, h4.symm⟩
+    exact ⟨n, (intInputMapper_ok_iff _ _ _).mp (rewrapC_eq_ok.mp h1), (checkInt_ok_iff _ _ _).mp h3, h4.symm⟩
   · intro ⟨n, h1, h2, h3⟩
     subst h3
-    simp [(intInputMapper_ok_iff _ _ _).mpr h1, (checkInt_ok_iff _ _ _).mpr h2, Out.bind]
+    simp [(intInputMapper_ok_iff _ _ _).mpr h1, rewrapC, (checkInt_ok_iff _ _ _).mpr h2, Out.bind]
 
 /-- Validate and Serialize of a native integer enforce the same bounds (and Serialize is the identity). -/
 theorem C02_int_native (x : Ext) (fuel : Nat) (env : Env) (min max : Option Int) (u : Option Units) (n : Int)
@@ -207,10 +207,10 @@ theorem C02_float_unser_iff (x : Ext) (fuel : Nat) (env : Env) (min max : Option
     obtain ⟨b, h1, h2⟩ := bind_eq_ok h
     obtain ⟨_, h3, h4⟩ := bind_eq_ok h2
     simp at h4
-    exact ⟨b, (floatInputMapper_ok_iff _ _ _ _).mp h1, (checkFloat_ok_iff _ _ _).mp h3, h4.symm⟩
+    exact ⟨b, (floatInputMapper_ok_iff _ _ _ _).mp (rewrapC_eq_ok.mp h1), (checkFloat_ok_iff _ _ _).mp h3, h4.symm⟩
   · intro ⟨b, h1, h2, h3⟩
     subst h3
-    simp [(floatInputMapper_ok_iff _ _ _ _).mpr h1, (checkFloat_ok_iff _ _ _).mpr h2, Out.bind]
+    simp [(floatInputMapper_ok_iff _ _ _ _).mpr h1, rewrapC, (checkFloat_ok_iff _ _ _).mpr h2, Out.bind]
 
 /-- Validate / Serialize of a native float64 enforce the same bounds; in particular NaN is rejected
     as soon as a bound is declared. -/
@@ -297,10 +297,10 @@ theorem C02_str_unser_iff (x : Ext) (fuel : Nat) (env : Env) (min max : Option I
     obtain ⟨s, h1, h2⟩ := bind_eq_ok h
     obtain ⟨_, h3, h4⟩ := bind_eq_ok h2
     simp at h4
-    exact ⟨s, (stringInputMapper_ok_iff _ _ _).mp h1, (checkStr_ok_iff _ _ _ _ _).mp h3, h4.symm⟩
+    exact ⟨s, (stringInputMapper_ok_iff _ _ _).mp (rewrapC_eq_ok.mp h1), (checkStr_ok_iff _ _ _ _ _).mp h3, h4.symm⟩
   · intro ⟨s, h1, h2, h3⟩
     subst h3
-    simp [(stringInputMapper_ok_iff _ _ _).mpr h1, (checkStr_ok_iff _ _ _ _ _).mpr h2, Out.bind]
+    simp [(stringInputMapper_ok_iff _ _ _).mpr h1, rewrapC, (checkStr_ok_iff _ _ _ _ _).mpr h2, Out.bind]
 
 theorem C02_str_native (x : Ext) (fuel : Nat) (env : Env) (min max : Option Int) (pat : Option String) (s : String) :
     (run x (fuel + 1) .V env (.str min max pat) (.str s) = done ↔ StrOK x min max pat s) ∧
@@ -351,7 +351,7 @@ theorem C02_bool_unser_iff (x : Ext) (fuel : Nat) (env : Env) (v r : V) :
     · split at h1
       · rename_i hw
         simp at h1; subst h1; exact .word hw
-      · simp [plain] at h1
+      · simp [cerr] at h1
     · simp only at h1
       split at h1
       · rename_i hw
@@ -359,8 +359,8 @@ theorem C02_bool_unser_iff (x : Ext) (fuel : Nat) (env : Env) (v r : V) :
       · split at h1
         · rename_i hw
           simp at h1; subst h1; exact .zero (by simpa using hw)
-        · simp [plain] at h1
-    · simp [plain] at h1
+        · simp [cerr] at h1
+    · simp [cerr] at h1
   · intro ⟨b, h1, h2⟩
     subst h2
     cases h1 with
@@ -421,17 +421,16 @@ theorem C02_pattern_unser_iff (x : Ext) (fuel : Nat) (env : Env) (v r : V) :
     split at h2
     · rename_i hc
       simp at h2
-      exact ⟨s, (stringInputMapper_ok_iff _ _ _).mp h1, hc, h2.symm⟩
+      exact ⟨s, (stringInputMapper_ok_iff _ _ _).mp (rewrapC_eq_ok.mp h1), hc, h2.symm⟩
     · simp [cerr] at h2
   · intro ⟨s, h1, h2, h3⟩
     subst h3
-    simp [(stringInputMapper_ok_iff _ _ _).mpr h1, Out.bind, h2]
+    simp [(stringInputMapper_ok_iff _ _ _).mpr h1, rewrapC, Out.bind, h2]
 
 /-! ### lists and maps: size bounds, and recursively the item / key / value schemas -/
 
 theorem addSeg_eq_ok {α} {o : Out α} {s : String} {a : α} : o.addSeg s = .ok a ↔ o = .ok a := by
   cases o <;> simp [addSeg]
-  split <;> simp
 
 theorem allIdx_addSeg_iff {g : V → Out V} : ∀ {n : Nat} {xs ys : List V},
     AllIdx (fun i e => (g e).addSeg (idxSeg i)) n xs ys ↔ Forall2 (fun e y => g e = .ok y) xs ys := by
